@@ -160,9 +160,12 @@ where
                                 co.yield_(None);
                                 break;
                             } else {
+                                // `current` holds only digits: a parse error on a non-empty
+                                // string is an overflow and saturates like any large value.
                                 let mut current_param = match current.parse::<u64>() {
                                     Ok(val) => val,
-                                    _ => 0,
+                                    _ if current.is_empty() => 0,
+                                    _ => 9999,
                                 };
                                 current_param = u64::min(current_param, 9999);
                                 params.push(current_param as u32);
@@ -284,9 +287,12 @@ where
                                 co.yield_(None);
                                 break;
                             } else {
+                                // `current` holds only digits: a parse error on a non-empty
+                                // string is an overflow and saturates like any large value.
                                 let mut current_param = match current.parse::<u64>() {
                                     Ok(val) => val,
-                                    _ => 0,
+                                    _ if current.is_empty() => 0,
+                                    _ => 9999,
                                 };
                                 current_param = u64::min(current_param, 9999);
                                 params.push(current_param as u32);
